@@ -83,6 +83,7 @@ pub fn op_name(op: &Op) -> &'static str {
         Op::ModelSetParams(_) => "ModelSetParams",
         Op::ModelEval => "ModelEval",
         Op::ModelDeriv(_) => "ModelDeriv",
+        Op::ConcurrentQueries(_) => "ConcurrentQueries",
     }
 }
 
@@ -142,5 +143,55 @@ pub fn expect_built(sc: &Scenario, rep: &mut crate::report::RunReport, build: &R
                 rep.probe("build_rejected_malformed_input");
             }
         }
+    }
+}
+
+/// Run `f` once inside the shuttle runtime under one seeded schedule (random, or PCT for one
+/// seed in four). Everything `f` spawns through `shuttle::thread` is interleaved by that
+/// scheduler at shuttle's scheduling points (here: the model seam). A panic that escapes `f`
+/// (or shuttle's own deadlock / step-bound detection) is returned as `Err`.
+pub fn in_shuttle<R: Send + 'static>(seed: u64, f: impl Fn() -> R + Send + Sync + 'static) -> Result<R, String> {
+    let out: std::sync::Arc<std::sync::Mutex<Option<R>>> = std::sync::Arc::new(std::sync::Mutex::new(None));
+    let out2 = out.clone();
+    let mut cfg = shuttle::Config::new();
+    cfg.stack_size = 1 << 21;
+    cfg.failure_persistence = shuttle::FailurePersistence::None;
+    cfg.max_steps = shuttle::MaxSteps::FailAfter(5_000_000);
+    cfg.silence_warnings = true;
+    let res = crate::run::guarded(move || {
+        let body = move || {
+            let v = f();
+            *out2.lock().unwrap() = Some(v);
+        };
+        if seed % 4 == 0 {
+            let s = shuttle::scheduler::PctScheduler::new_from_seed(seed, 3, 1);
+            shuttle::Runner::new(s, cfg).run(body);
+        } else {
+            let s = shuttle::scheduler::RandomScheduler::new_from_seed(seed, 1);
+            shuttle::Runner::new(s, cfg).run(body);
+        }
+    });
+    crate::executor::Exec::uninstall();
+    match res {
+        Err(p) => Err(p),
+        Ok(()) => out.lock().unwrap().take().ok_or_else(|| "shuttle run produced no result".to_string()),
+    }
+}
+
+/// Turn a scenario into its *concurrent-callers* variant: one to two `ConcurrentQueries`
+/// operations at seeded positions of the script, executed under the shuttle runtime. The
+/// draws come from their own stream so that the scenario is otherwise unchanged.
+pub fn make_concurrent(sc: &mut Scenario, rng: &mut Rng) {
+    sc.variant = "concurrent".into();
+    sc.sched.overlap = true;
+    sc.sched.shuttle_seed = rng.next_u64();
+    if sc.parallel {
+        sc.sched.pool = sc.sched.pool.max(2);
+        sc.sched.mix = [Fx(0.15), Fx(0.15), Fx(0.15), Fx(0.55)];
+    }
+    let cnt = 1 + rng.below(2) as usize;
+    for _ in 0..cnt {
+        let pos = rng.usize_in(0, sc.ops.len());
+        sc.ops.insert(pos, Op::ConcurrentQueries(2 + rng.below(3) as u8));
     }
 }
